@@ -6,6 +6,7 @@ import (
 	"github.com/ethereum/go-ethereum/common"
 	"github.com/holiman/uint256"
 	"math/big"
+	"sort"
 )
 
 type NodeType int
@@ -90,6 +91,8 @@ func (k *StorageKey) Children() []*StorageKey {
 		for _, child := range k.childrenIndex {
 			res = append(res, child)
 		}
+		// map iteration order is random: return a deterministic order
+		sort.Slice(res, func(i, j int) bool { return bytes.Compare(res[i].data, res[j].data) < 0 })
 	}
 	return res
 }
@@ -101,6 +104,8 @@ func (k *StorageKey) ChildrenIndices() [][]byte {
 		for index := range k.childrenIndex {
 			res = append(res, []byte(index))
 		}
+		// map iteration order is random: return a deterministic order
+		sort.Slice(res, func(i, j int) bool { return bytes.Compare(res[i], res[j]) < 0 })
 	}
 	return res
 }
@@ -370,6 +375,8 @@ func (s *StateChanges) IndicesOfChanges(account common.Address, stateVarName str
 		for index := range key.childrenIndex {
 			res = append(res, []byte(index))
 		}
+		// map iteration order is random: return a deterministic order
+		sort.Slice(res, func(i, j int) bool { return bytes.Compare(res[i], res[j]) < 0 })
 	}
 
 	return res
